@@ -78,7 +78,10 @@ def run(tier, seed):
         if s % 11 == 5:
             nl, nh = 6, 5        # beyond one 100-packet batch
         fmt = rng.choice([0, 2])
-        _m, per = streams.conforming(rng, nlinks=nl, nhbf=nh, stave_level=stave, fmt=fmt, version=rng.choice([7, 7, 6]))
+        # calibration runs: a CDW leads the data of every page.  They are conforming streams by checks_list.md but NOT members of the
+        # proved word-level grammar (it has no CDW production): their silence is observed, not proved
+        calib = s % 7 == 3
+        _m, per = streams.conforming(rng, nlinks=nl, nhbf=nh, stave_level=stave, fmt=fmt, version=rng.choice([7, 7, 6]), calib=calib)
         layout = rng.choice(["contiguous", "round-robin", "random-1"])
         cd, _r = c06.place(per, c06.layouts(rng, per)[layout])
         data = b"".join(r + p for _o, r, p in cd)
@@ -86,7 +89,7 @@ def run(tier, seed):
         open(path, "wb").write(data)
         for pk in per:
             glines.append(desc_line(pk))
-            gmeta.append({"s": s, "pk": pk, "stave": stave})
+            gmeta.append({"s": s, "pk": pk, "stave": stave, "calib": calib})
         for mode in MODES:
             if mode[-1] == "its-stave" and not stave:
                 continue
@@ -106,13 +109,14 @@ def run(tier, seed):
     chk.add_stream("grammar", len(glines), gd, [], distribution={"links": len(glines)})
     # ---- ... and every generated link is a member of the WORD-level grammar (Spec/GrammarIts.v) that the ITS-tier theorem quantifies
     #      over: the extracted membership test (sound by C01_membership_test_sound) accepts it, and rendering it gives the bytes back
-    ilines = [desc_line(m["pk"], with_payload=True) for m in gmeta]
+    imeta = [m for m in gmeta if not m["calib"]]
+    ilines = [desc_line(m["pk"], with_payload=True) for m in imeta]
     ires = core.run_lines(core.FPMODEL, "grammarits", ilines, shards=core.NCPU)
     idist = set()
     members = 0
     stave_links = 0
     stave_members = 0
-    for m, line, out in zip(gmeta, ilines, ires):
+    for m, line, out in zip(imeta, ilines, ires):
         want = ",".join((r + p_).hex().upper() for r, p_ in m["pk"])
         npages = len(m["pk"])
         idist.add((npages > 6, m["pk"][0][0][24], out[:10]))
@@ -133,7 +137,7 @@ def run(tier, seed):
                                       "detail": "a generated conforming link is not accepted by the membership test of the word-level grammar "
                                                 "(Spec/GrammarItsCheck.v link_witness), or its rendering differs from the generated bytes"})
     chk.add_stream("grammar-its", len(ilines), idist, [{"description": ilines[0][:200] + "...", "verdict": ires[0][:11]}] if ilines else [],
-                   distribution={"links": len(ilines), "members_of_the_word_level_grammar": members,
+                   distribution={"links": len(ilines), "calibration_links_outside_the_grammar": len(gmeta) - len(imeta), "members_of_the_word_level_grammar": members,
                                  "stave_level_links": stave_links, "members_of_the_stave_level_grammar": stave_members})
 
     # ---- every mode is silent
